@@ -16,7 +16,8 @@ CONSTANTS RuleActions, RuleResources, RuleNames, \* rule alphabet for the subjec
           DevKnownNoMatchDeny, \* deviation: a configured principal without a matching rule is denied whatever the default says
           DevPrefixExact,      \* deviation: "abc*" is compared literally
           DevWhitelist,        \* deviation: a principal with allow rules loses the default (the sql proxy's convention applied to the broker)
-          DevSqlAllowFirst     \* deviation (sql): allow patterns are consulted before deny patterns
+          DevSqlAllowFirst,    \* deviation (sql): allow patterns are consulted before deny patterns
+          DevSuperuser         \* deviation: a principal holding a catch-all allow rule is answered TRUE before its deny rules are read
 VARIABLES phase, dflt, rules, sql, hist
 vars == <<phase, dflt, rules, sql, hist>>
 
@@ -69,7 +70,9 @@ Decide(rs, df, q) ==
       dn == \E r \in rs : r.pr = pr /\ r.kind = "deny" /\ IMatches(r, q)
       al == \E r \in rs : r.pr = pr /\ r.kind = "allow" /\ IMatches(r, q)
       hasAllow == \E r \in rs : r.pr = pr /\ r.kind = "allow"
+      super == \E r \in rs : r.pr = pr /\ r.kind = "allow" /\ r.action \in {"", "*"} /\ r.resource \in {"", "*"} /\ r.name \in {"", "*"}
   IN IF ~known THEN (IF DevUnknownDeny THEN FALSE ELSE df)
+     ELSE IF DevSuperuser /\ super THEN TRUE
      ELSE IF DevAllowFirst /\ al THEN TRUE
      ELSE IF dn THEN FALSE
      ELSE IF al THEN TRUE
